@@ -312,7 +312,9 @@ impl<'a> Interp<'a> {
         let mut gated = vec![];
         for (i, g) in self.gets.iter().enumerate() {
             if g.state == GState::Pending {
-                if w.active_call_of(g.op).is_some() {
+                // inside a manager / hook call, or suspended elsewhere after it obtained its slot
+                // (an implementation may yield to the executor between two steps)
+                if w.active_call_of(g.op).is_some() || w.admitted.contains(&g.op) {
                     gated.push(i);
                 } else {
                     waiting.push(i);
@@ -710,9 +712,17 @@ impl<'a> Interp<'a> {
     pub(crate) fn poll_pending(&mut self, g: usize) {
         self.gets[g].state = GState::Pending;
         if self.gets[g].zero_wait {
-            // a zero-wait call may only be pending inside a manager / hook call
+            // a zero-wait call may be pending inside a manager / hook call or anywhere else after
+            // it obtained its slot, but never while it waits for one
             let op = self.gets[g].op;
-            if self.world.w().active_call_of(op).is_none() {
+            let (in_call, admitted) = {
+                let w = self.world.w();
+                (w.active_call_of(op).is_some(), w.admitted.contains(&op))
+            };
+            if !in_call && admitted {
+                self.label("get:yielded-outside-a-call");
+            }
+            if !in_call && !admitted {
                 self.flag(
                     "zero-wait-get-waits",
                     &["C02", "C10"],
